@@ -32,11 +32,37 @@ def r1(ctx: Ctx) -> None:
     n = 0
     for p in normal_paths(ctx.paths(UPD)):
         lps = [l for l in loops(p) if key(strip_ver(l.iter)) == "execution_logs"]
+        # the modelled shape: the holdings are updated inside the one pass over the logs.  Anything else
+        # (transfers collected first and applied later, closures, netting per agent) is either positively
+        # wrong (closures over the loop variable) or a shape this rule does not decide.
+        from ..kit import late_bound
+
+        shaped = len(lps) == 1 and len(loops(p)) == 1
+        for l in lps:
+            for bp in l.paths:
+                notes, captured = late_bound(l, bp)
+                if captured:
+                    shaped = True  # reported below, per fill
+                elif notes:
+                    shaped = False
+        if len(lps) == 1 and not any(e.kind == "store" and (e.attr == "cash_amount" or (e.attr is None and e.base[0] == "attr" and e.base[2] == "asset_volumes")) for bp in lps[0].paths for e in bp.events) \
+                and not any(late_bound(lps[0], bp)[1] for bp in lps[0].paths):
+            shaped = False
+        if not lps and not loops(p) and any("execution_logs" in key(strip_ver(c)) for c, _, _ in p.conds):
+            shaped = False  # a special case decided on the number of logs (empty round, single fill) handled without the pass
+        if not shaped and (lps or loops(p) or p.conds):
+            ctx.unrec(f, f.node, "holdings are updated fill by fill inside one pass over the round's logs", "the updates are collected, netted or deferred and applied outside that pass: this form is not modelled")
+            n += 1
+            continue
         ctx.check(len(lps) == 1, f, f.node, "one pass over the round's execution logs", "for log in execution_logs", f"{len(lps)} loop(s)")
         for l in lps:
             log = ("sym", f"{l.target[0]}∈{l.loopid}")
             for bp in l.paths:
                 n += 1
+                notes, captured = late_bound(l, bp)
+                if captured:
+                    ctx.violated(f, notes[0].node, "each fill's transfer uses that fill's own record and parties", "values bound when the transfer is created", f"the transfer is deferred in a closure over the loop variable(s) {', '.join(captured)}: when the closures run, every one of them applies the last fill")
+                    continue
                 buyer = ("sub", ("attr", ("sym", "self"), "id2agent"), ("attr", log, "buy_agent_id"))
                 seller = ("sub", ("attr", ("sym", "self"), "id2agent"), ("attr", log, "sell_agent_id"))
 
@@ -216,7 +242,7 @@ def r5(ctx: Ctx) -> None:
         ok = comp is not None and comp[0] == "comp" and comp[1] == "seq" and len(comp[3]) == 1 and not comp[3][0][2] and comp[2][0] == "call" and key(comp[2][1]).endswith("_execute_orders")
         if ok:
             ctx.holds(f, made[0].node, "the round returns the records of its own fills", "[self._execute_orders(...) for each pending pair]", short(comp)[:160])
-        elif not any(s_[0] == "call" and key(s_[1]).endswith("_execute_orders") for s_ in subterms(strip_ver(r))) and comp is not None and comp[0] != "comp":
+        elif not any(s_[0] == "call" and key(s_[1]).endswith("_execute_orders") for s_ in subterms(strip_ver(r))) and comp is not None and comp[0] != "comp" and alloc_literal(p, r) is None:
             ctx.violated(f, made[0].node, "the round returns the records of its own fills", "[self._execute_orders(...) for each pending pair]", f"the records made by _execute_orders are dropped and {short(r)[:120]} is returned instead (a stored list can hold other rounds' fills as well)")
         else:
             ctx.unrec(f, made[0].node, "the round returns the records of its own fills", "the way the returned list is built is not modelled", short(r)[:160])
